@@ -2,6 +2,11 @@
 """writes MANIFEST.json from the table below (keeps it valid and in one place)"""
 import json, os
 CHECKS = {
+ 'C19': dict(technique='who-may-call plus path-fact gating at the call sites, single-writer rule on the established flag under the GNUTLS_E_SUCCESS case label (R-ROUTE)',
+             text='Decides the routing/gating clauses of C19: cleartext processing only for UDP or inside an established TLS record read, established only on '
+                  'handshake success, session-connected and record I/O only afterwards, transmission only in state ESTABLISHED. Credential acceptance (inside '
+                  'GnuTLS), handshake schedules and NACK-once of queued requests are not decided.',
+             design='6 C19'),
  'C20': dict(technique='path-sensitive guard check of every store through the output cursor and of the space handed to the callee (R-OUT-BOUND)',
              text='Decides one clause of C20 - nothing is written outside the window the caller supplied: every cursor store holds cursor < end for the current '
                   'cursor value and coap_print_link receives end - cursor. Window/total/truncation exactness and filter semantics are not decided.',
